@@ -1267,7 +1267,7 @@ class World(object):
                 elif not (mode == 'best' and ok) or self.template is not None or self.cfg_template is not None:
                     bv = None     # (under a global template Fxp(c) is shaped by the template instead)
             if av is not None and bv is not None:
-                x, y = (bv, av) if (route == 'rop' and b is None) else (av, bv)
+                x, y = (bv, av) if ((route == 'rop' or (route == 'fn' and op.get('swap'))) and b is None) else (av, bv)
                 exact = self._arith_exact(f, x, y)
             st.extra['const_inexact'] = const_inexact
         prop = [a] + ([b] if b is not None else [])
@@ -1291,7 +1291,12 @@ class World(object):
                  bv / ao if f == 'truediv' else bv // ao if f == 'floordiv' else bv ** ao if f == 'pow'
                  else bv % ao)
         elif route == 'fn':
-            x = getattr(fxf, f)(ao, bv, **kwargs)
+            if op.get('swap') and b is None:
+                # the free function with the non-Fxp operand FIRST: fxpmath.sub(3, x), fxpmath.add([1, 2], x)
+                self.bump('arith_function_nonfxp_first')
+                x = getattr(fxf, f)(bv, ao, **kwargs)
+            else:
+                x = getattr(fxf, f)(ao, bv, **kwargs)
         elif st.extra.get('ndarray_left_operand'):
             x = (bv + ao if f == 'add' else bv - ao if f == 'sub' else bv * ao if f == 'mul' else
                  bv / ao if f == 'truediv' else bv // ao if f == 'floordiv' else bv ** ao if f == 'pow'
@@ -2094,6 +2099,8 @@ class World(object):
         yield
         obj = self.containers[c][0]
         v = V.carrier(op['val'])
+        if isinstance(obj, np.ndarray) and obj.size == 0:
+            return       # (an empty array: nothing the caller could overwrite)
         if isinstance(obj, np.ndarray):
             i = op['k'] % obj.size
             try:
@@ -2104,8 +2111,10 @@ class World(object):
                 obj.flat[i] = 1 if obj.flat[i] == 0 else 0
         elif isinstance(obj, list):
             tgt = obj
-            while isinstance(tgt[0], list):
+            while tgt and isinstance(tgt[0], list):
                 tgt = tgt[op['k'] % len(tgt)]
+            if not tgt:
+                return   # (an empty list)
             tgt[op['k'] % len(tgt)] = v
         else:
             raise Skip('immutable container')
